@@ -32,7 +32,11 @@ ASSUMPTIONS = [
 ]
 EPS = 1e-3
 STEP = 0.1
-SIGNALS = {"TERM": 15, "INT": 2, "QUIT": 3, "USR1": 10, "HUP": 1}
+import signal as _sig
+SIGNALS = {"TERM": 15, "INT": 2, "QUIT": 3, "USR1": 10, "HUP": 1,
+           # the documented NAME+offset form
+           "RTMIN+1": int(_sig.SIGRTMIN) + 1,
+           "SIGRTMIN+2": int(_sig.SIGRTMIN) + 2}
 
 
 def _num(v, default):
